@@ -93,10 +93,11 @@ func VH_C15_conversion() {
 	case from == "v2" && to == "v3":
 		chain = []string{"hookB"}
 	}
-	// per step outcome: 0 exit!=0, 1 failedMessage, 2 converts, 3 returns too few objects
+	// per step outcome: 0 exit!=0, 1 failedMessage, 2 converts, 3 returns too few objects,
+	// 4 failedMessage together with a full list of objects (still a failure)
 	outcomes := make([]int, 2)
 	for i := range outcomes {
-		outcomes[i] = zz.Len("step_outcome"+strconv.Itoa(i), 0, 3)
+		outcomes[i] = zz.Len("step_outcome"+strconv.Itoa(i), 0, 4)
 	}
 	var ran []string
 	var inputs []string
@@ -131,6 +132,9 @@ func VH_C15_conversion() {
 		var conv []runtime.RawExtension
 		for i := 0; i < n; i++ {
 			conv = append(conv, conversion.VObject(target))
+		}
+		if out == 4 {
+			return &hook.Result{ConversionResponse: &conversion.Response{FailedMessage: "cannot convert: " + h.Name, ConvertedObjects: conv}}, nil
 		}
 		return &hook.Result{ConversionResponse: &conversion.Response{ConvertedObjects: conv}}, nil
 	}
@@ -194,7 +198,7 @@ func VH_C15_conversion() {
 		}
 	} else {
 		zz.Assert(!success, "a_failed_step_fails_the_conversion")
-		if outcomes[firstBad] == 1 {
+		if outcomes[firstBad] == 1 || outcomes[firstBad] == 4 {
 			zz.Assert(resp.Result.Message == "cannot convert: "+ran[firstBad], "failure_carries_the_hooks_own_message")
 		}
 	}
